@@ -34,6 +34,7 @@ typedef std::vector<Node> NV;
 enum Dom { ANY, POS, UNIT, MID, POSM };  // nonzero / positive / |x| <= 1 / 1/2 <= |x| <= 3/2 / 1/2 <= x <= 2
 
 static Device *g_other = nullptr;  // a second device object of the other backend
+static bool g_cross_last = false;  // the node backward() is called on lives on the other device (a final functions::copy)
 
 // ---- `alloc` mode: devices whose new_handle counts, poisons and can be made to fail ----
 static long g_live = 0, g_allocs = 0, g_fail_at = -1;
@@ -448,6 +449,7 @@ static double eval_total(Device &dev, const Case &c, const std::vector<std::vect
       total = total + F::batch::sum(F::sum(F::flatten(extra), 0));
     }
   }
+  if (g_cross_last && g_other && !W.empty()) total = F::copy(total, *g_other);
   std::vector<float> v = total.to_vector();
   double s = 0;
   for (float e : v) s += e;
@@ -485,6 +487,7 @@ static ProgRun run_prog(Device &dev, const Case &c, const std::vector<std::vecto
     Graph g;
     Graph::set_default(g);
     NV xs;
+    const long allocs_before_construction = g_allocs, live_before_construction = g_live;
     for (std::size_t i = 0; i < ps.size(); ++i) {
       Node x = F::parameter<Node>(*ps[i]);
       if (c.ps[i].has_batch()) x = x + F::input<Node>(c.ps[i], offs[i], dev);
@@ -492,6 +495,12 @@ static ProgRun run_prog(Device &dev, const Case &c, const std::vector<std::vecto
     }
     Node y = c.f(xs);
     Node total = y * F::input<Node>(y.shape(), W, dev);
+    // creating nodes computes nothing: no device buffer is requested before the first value is asked for
+    if (accounting && (g_allocs != allocs_before_construction || g_live != live_before_construction)) {
+      r.problem = "building the graph (no value requested yet) made " + std::to_string(g_allocs - allocs_before_construction) +
+                  " device allocation(s): node creation computed something";
+      return r;
+    }
     g_allocs = 0; g_failed = false; g_fail_at = fail_at;
     try {
       r.value = bits_of(total.to_vector());
@@ -501,7 +510,7 @@ static ProgRun run_prog(Device &dev, const Case &c, const std::vector<std::vecto
     r.fired = g_failed;
     r.allocs = g_allocs;
     g_fail_at = -1;
-    if (fail_at >= 0 && r.fired && !r.threw) r.problem = "an allocation failure did not surface as an exception";
+    if (fail_at >= 0 && r.fired && !r.threw && r.problem.empty()) r.problem = "an allocation failure did not surface as an exception";
     try {
       r.value2 = bits_of(total.to_vector());
       const std::vector<std::uint32_t> yb = bits_of(y.to_vector());
@@ -532,6 +541,7 @@ static std::string exec_alloc(const std::vector<std::string> &w) {
   else if (w[1] == "naive") { dev.reset(new INaive()); other.reset(new devices::Eigen()); }
   else throw BadOp();
   g_other = other.get();
+  g_cross_last = false;
   Device::set_default(*dev);
   Rng r(vh::to_u32(w[3]) * 2654435761u + 17);
   Case c = make_case(w[2], r);
@@ -556,6 +566,7 @@ static std::string exec_alloc(const std::vector<std::string> &w) {
   if (clean.threw) return "err";
   const long N = clean.allocs;
   long tried = 0;
+  if (w[0] == "lazy") return "ok pass allocs=" + std::to_string(N) + " failures-injected=0";
   for (long k = 0; k < N; ++k) {
     if (N > 48 && (k % (N / 48 + 1)) != 0) continue;
     ProgRun f = run_prog(*dev, c, theta, offs, W, k, false);
@@ -570,7 +581,7 @@ static std::string exec_alloc(const std::vector<std::string> &w) {
 }
 
 static std::string exec(const std::vector<std::string> &w) {
-  if (w.size() == 4 && w[0] == "alloc") return exec_alloc(w);
+  if (w.size() == 4 && (w[0] == "alloc" || w[0] == "lazy")) return exec_alloc(w);   // lazy: the accounting run only, no failures injected
   if (w.size() != 3) throw BadOp();
   std::unique_ptr<Device> dev;
   if (w[0] == "eigen") dev.reset(new devices::Eigen());
@@ -582,6 +593,8 @@ static std::string exec(const std::vector<std::string> &w) {
   Device::set_default(*dev);
   Rng r(vh::to_u32(w[2]) * 2654435761u + 17);
   Case c = make_case(w[1], r);
+  // every third seed: the whole program runs on one device but backward() starts on the other one
+  g_cross_last = (vh::to_u32(w[2]) % 3 == 0);
   std::vector<std::vector<float>> theta;
   std::uint32_t total_elems = 0;
   std::vector<std::vector<float>> offs;
